@@ -194,14 +194,21 @@ def ite_dict(i, d, default):
         return ite_cases([(i == c, v) for c, v in d.items()], default)
 
     # otherwise, binary search.
+    # The tree compares with unsigned <=, so keys are ordered by the bit pattern they denote: a negative key or a key
+    # >= 2**size would otherwise end up on the wrong side of the split.
+    def unsigned(c):
+        return c % (1 << i.size()) if isinstance(c, int) else c
+
     # Find the median:
-    keys = list(d.keys())
-    keys.sort()
+    keys = sorted(unsigned(c) for c in d)
     split_val = keys[(len(keys) - 1) // 2]
 
     # split the dictionary
-    dictLow = {c: v for c, v in d.items() if c <= split_val}
-    dictHigh = {c: v for c, v in d.items() if c > split_val}
+    dictLow = {c: v for c, v in d.items() if unsigned(c) <= split_val}
+    dictHigh = {c: v for c, v in d.items() if unsigned(c) > split_val}
+    if not dictHigh:
+        # every key denotes the same value as the median: nothing to split on
+        return ite_cases([(i == c, v) for c, v in d.items()], default)
 
     valLow = ite_dict(i, dictLow, default)
     valHigh = ite_dict(i, dictHigh, default)
